@@ -12,7 +12,7 @@ import itertools
 
 import numpy as np
 
-from harness import core, coords
+from harness import core, coords, qobjs
 from harness.props import c08
 
 
@@ -95,6 +95,63 @@ def helper_checks(chk, rng):
         if not np.allclose(tot, w, atol=1e-15):
             chk.violation("helper:calc_covariance_matrix_of_prob_dists", "block structure wrong", dict(p=list(p)))
     chk.count(n)
+
+
+def mixed_outcome_counts(chk):
+    """Tester sets whose schedules have DIFFERENT outcome counts (2, 4, 2 and 2, 3, 4).  The complete enumeration of a
+    4-outcome schedule overflows TLC's 32-bit rationals, so the formulas TLC verified on the uniform configurations
+    (covariance (diag p - p p^T)/N per schedule, MSE = trace, linear estimate through the pseudo-inverse of A) are
+    evaluated here in numpy from Born probabilities computed from the objects' matrices."""
+    from quara.objects.povm import Povm
+    from quara.protocol.qtomography.standard.standard_qst import StandardQst
+    c = qobjs.csys("qubit", 1)
+    sv = {n: qobjs.gen("state", n, c).vec for n in ("z0", "z1", "y0", "y1")}
+    p4 = Povm(c, [0.5 * sv["z0"], 0.5 * sv["z1"], 0.5 * sv["y0"], 0.5 * sv["y1"]])
+    x, z = qobjs.gen("povm", "x", c), qobjs.gen("povm", "z", c)
+    sets = {"x-p4-z": [x, p4, z], "z-p3-p4": [z, qobjs.povm3_qubit(), p4], "p4-x-y-z": [p4, x, qobjs.gen("povm", "y", c), z]}
+    from quara.objects.state import State
+    trues = {"a": qobjs.gen("state", "a", c), "interior": State(c, np.array([1.0, 0.3, -0.2, 0.4]) / np.sqrt(2))}
+    for sname, povms in sets.items():
+        ns = [3, 5, 4, 6][:len(povms)]
+        for para in (True, False):
+            qt = StandardQst(povms, on_para_eq_constraint=para, schedules="all")
+            A = np.asarray(qt.calc_matA())
+            Ap = np.linalg.pinv(A)
+            for tname, tr in trues.items():
+                tag = "mixed:%s:%s:%s" % (sname, "para" if para else "nopara", tname)
+                obj = tr.copy()
+                obj._on_para_eq_constraint = para
+                rho = tr.to_density_matrix()
+                ps = [np.array([np.trace(E @ rho).real for E in pv.matrices()]) for pv in povms]
+                covs = [(np.diag(p) - np.outer(p, p)) / n for p, n in zip(ps, ns)]
+                sizes = [len(p) for p in ps]
+                off = np.cumsum([0] + sizes)
+                tot = np.zeros((off[-1], off[-1]))
+                for k, cv in enumerate(covs):
+                    tot[off[k]:off[k + 1], off[k]:off[k + 1]] = cv
+                chk.count(4, ("mixed", tag))
+
+                def bad(clause, msg):
+                    chk.violation("%s:%s" % (clause, tag), msg, dict(tester_set=sname, para=para, true=tname, ns=ns, clause=clause))
+                try:
+                    for k in range(len(povms)):
+                        got = np.asarray(qt.calc_covariance_mat_single(obj, k, ns[k]))
+                        if got.shape != covs[k].shape or not coords.close(got, covs[k], 1e-9):
+                            bad("covariance_single", "calc_covariance_mat_single(schedule %d) differs from (diag p - p p^T)/N with the Born probabilities" % k)
+                            break
+                    got = np.asarray(qt.calc_covariance_mat_total(obj, ns))
+                    if got.shape != tot.shape or not coords.close(got, tot, 1e-9):
+                        bad("covariance_total", "calc_covariance_mat_total is not the direct sum of the schedule covariances")
+                    g = float(qt.calc_mse_empi_dists_analytical(obj, ns))
+                    if abs(g - np.trace(tot)) > 1e-9:
+                        bad("mse_empi", "calc_mse_empi_dists_analytical=%r, trace of the covariance %r" % (g, float(np.trace(tot))))
+                    want = float(np.trace(Ap @ tot @ Ap.T))
+                    for mode in ("var", "qoperation"):
+                        g = float(qt.calc_mse_linear_analytical(obj, ns, mode=mode))
+                        if abs(g - want) > 1e-8 * (1 + abs(want)):
+                            bad("mse_linear:" + mode, "calc_mse_linear_analytical(mode=%s)=%r, tr(A+ V A+^T)=%r" % (mode, g, want))
+                except Exception as e:
+                    bad("exception", "%r" % e)
 
 
 def run(chk):
@@ -186,6 +243,7 @@ def run(chk):
         if len(chk.samples) < 3:
             chk.sample(dict(tomo=tag, true=st["name"], ns=ns, mseVar=st["mseVar"], mseObj=st["mseObj"], mseEmpi=st["mseEmpi"], cov0=st["covs"][0]))
     helper_checks(chk, rng)
+    mixed_outcome_counts(chk)
     chk.assumptions += [
         "exact expectations by complete enumeration for sample sizes 1..4 per schedule; larger sizes only through the verified 1/N scaling",
         "configurations restricted to tester sets whose exact pseudo-inverse fits TLC's 32-bit rationals",
